@@ -444,3 +444,29 @@ class F16LoneSurrogateInFreeText(ReproBase):
         except Exception as exc:
             self.fail('escaped exception (500 via FaultWrapper): %r' % exc)
         self.assertIn(r.status_int, (200, 400))
+
+
+class F17EmptyInventoriesNoLastModified(ReproBase):
+    """C14: from 1.15 on every GET (and every PUT/POST answered with a body)
+    carries last-modified and cache-control.  The inventories of a provider
+    that has none were serialised with ``last_modified = None`` (no "or now"
+    fallback, unlike every sibling serialiser): webob drops the header
+    (R14.12)."""
+
+    def _headers(self, method, body=None):
+        cn1 = self._create_provider('cn1')
+        r = self.call(method, '/resource_providers/%s/inventories' % cn1.uuid,
+                      body, version='1.15')
+        self.assertEqual(200, r.status_int)
+        return r.headers
+
+    def test_get_empty_inventories(self):
+        h = self._headers('GET')
+        self.assertIn('cache-control', h)
+        self.assertIn('last-modified', h)
+
+    def test_put_empty_inventories(self):
+        h = self._headers('PUT', {'resource_provider_generation': 0,
+                                  'inventories': {}})
+        self.assertIn('cache-control', h)
+        self.assertIn('last-modified', h)
